@@ -448,7 +448,7 @@ def prev_frag(
                     return None
 
             elif (s := m.group(1)) == '\\':
-                cont_ln = ln
+                cont_ln = i  # this line continues on the next, lines before it only belong to the logical line if they end in a line continuation themselves
                 end_col = m.start(1)  # in case state was exhausted
                 i += 1  # to search same line again, possibly from new end_col
 
